@@ -61,6 +61,8 @@ type File struct {
 	Status  Status // Added = file new in the new revision
 	Helpers bool   // this file carries the package helpers
 	Asm     bool   // declares a body-less function (needs the .s file)
+	// MainMethod: the entry file declares, before func main, a method that is also called main
+	MainMethod bool
 }
 
 // Gen carries generator state.
@@ -133,6 +135,7 @@ var leafKinds = []string{
 	"deferClosure", "deferArg", "goWait", "sendrecv", "recvStmt", "composite", "structLit", "applyMulti", "panicRecover",
 	"varFunc", "method", "generic", "multilineCall", "multilineExpr", "comment", "blockComment", "returnEarly", "goArg",
 	"ifCondClosure", "labeledIfElse", "closureMultiSig", "twoSingles", "closureSigMultiBodySingle", "selectRecv", "lineComment2",
+	"derefAssign", "derefMulti", "closure1Unicode",
 }
 
 var compoundKinds = []string{"if", "ifelse", "ifchain", "ifinit", "for", "range", "switch", "switchinit", "typeswitch", "select",
@@ -169,6 +172,25 @@ func (g *Gen) Stmt(depth int) *Node {
 	}
 	g.Dist[n.Kind]++
 	return n
+}
+
+// Freeze makes a file identical in both revisions (every unit Same).
+func (f *File) Freeze() {
+	var nodes func(ns []*Node)
+	nodes = func(ns []*Node) {
+		for _, n := range ns {
+			n.Status = Same
+			for _, c := range n.Children {
+				nodes(c)
+			}
+		}
+	}
+	f.Status = Same
+	nodes(f.Globals)
+	for _, fn := range f.Funcs {
+		fn.Status = Same
+		nodes(fn.Body)
+	}
 }
 
 // GenFunc generates one function.
@@ -264,6 +286,16 @@ func (f *File) Render(old bool) string {
 		w.line(0, "}")
 		w.line(0, "")
 	}
+	if f.IsMain && f.MainMethod {
+		w.line(0, "type app struct{ n int }")
+		w.line(0, "")
+		w.line(0, "// main is a method that happens to be called main; it is not the entry point.")
+		w.line(0, "func (a app) main() int {")
+		w.line(1, "a.n++")
+		w.line(1, "return a.n")
+		w.line(0, "}")
+		w.line(0, "")
+	}
 	if f.IsMain {
 		w.line(0, "func main() {")
 		w.line(1, "total := 0")
@@ -277,6 +309,9 @@ func (f *File) Render(old bool) string {
 		}
 		for _, c := range f.Calls {
 			w.line(1, "total += %s(3, 4)", c)
+		}
+		if f.MainMethod {
+			w.line(1, "total += app{n: 1}.main() + app{n: 2}.main()")
 		}
 		w.line(1, `fmt.Println("total", total, "notes", NoteSum())`)
 		w.line(0, "}")
@@ -325,6 +360,9 @@ func Apply(f func(int) int, x int) int { return f(x) }
 
 // Runf calls f.
 func Runf(f func()) { f() }
+
+// ApplyS calls f; the string is only there to be written in front of it.
+func ApplyS(s string, f func(int) int, x int) int { return f(x) + len(s)*0 }
 
 // Ident is generic.
 func Ident[E any](x E) E { return x }
@@ -469,6 +507,16 @@ func (w *writer) stmt(ind int, n *Node) {
 	case "vardecl":
 		w.line(ind, "var w%d = acc + %d", id, k)
 		w.line(ind, "acc -= w%d %% 13", id)
+	case "closure1Unicode": // multi-byte characters before a one-line function body on the same line
+		w.line(ind, "acc = ApplyS(\"é→日本\", func(x int) int { return x + %d }, acc)", k)
+	case "derefAssign": // a statement whose line starts with `*` (not a comment)
+		w.line(ind, "p%d := &acc", id)
+		w.line(ind, "*p%d = *p%d + %d", id, id, k)
+	case "derefMulti": // … spread over two lines, the changed constant on the first
+		w.line(ind, "q%d := &T{}", id)
+		w.line(ind, "*q%d = T{V: %d +", id, k)
+		w.line(ind+1, "acc%%7}")
+		w.line(ind, "acc += q%d.V", id)
 	case "call":
 		w.line(ind, "Note(acc %% %d)", k)
 	case "closure1":
